@@ -175,28 +175,85 @@ example : sortedByTimeB [⟨4, 6, 0⟩, ⟨5, 9, 1⟩] = true ∧ nonNegB [⟨4,
 
 /-! ### sort_by_time -/
 
-/-- the composite-key argsort of `sort_by_time` *is* the stable merge sort by (time, channel) — by time alone when
-the array has no channel field — so the result is a deterministic function of the input … -/
-theorem sort_eq_stable_lexicographic (hasChannel : Bool) (x : List CRow) :
+/-- on the fast path (time span ≤ (2^63 - 11)/(max shifted channel + 1), `sortSpanTooLarge = false`) the composite-key
+argsort of `sort_by_time` *is* the stable merge sort by (time, channel) — by time alone when the array has no channel
+field — so the result is a deterministic function of the input … -/
+theorem sort_eq_stable_lexicographic (hasChannel : Bool) (x : List CRow) (hok : sortSpanTooLarge hasChannel x = false) :
     sortByTime hasChannel x = x.mergeSort (lexLeB hasChannel) :=
-  sortByTime_eq_mergeSort hasChannel x
+  sortByTime_fast hok
 
-/-- … it is a permutation of the input, sorted by (time, channel), and stable: every subsequence of the input that
-is already in order (in particular any rows with equal time and channel) appears in the output in the same order. -/
-theorem sort_stable_perm_sorted (hasChannel : Bool) (x : List CRow) :
+/-- on both paths, for every input: the result is a permutation of the input sorted by (time, channel) -/
+theorem sort_perm_sorted (hasChannel : Bool) (x : List CRow) :
+    (sortByTime hasChannel x).Perm x ∧
+    (sortByTime hasChannel x).Pairwise (fun a b => lexLeB hasChannel a b = true) :=
+  sortByTime_perm_sorted hasChannel x
+
+/- Full statement (FALSE for the code as it is, see `sort_stable_counterexample`):
+     ∀ x, perm ∧ sorted ∧ every already ordered subsequence of the input keeps its order in the output.
+   Missing part: stability on the slow path (`np.sort(order=…)` breaks ties with the remaining fields). -/
+/-- … and on the fast path it is stable: every subsequence of the input that is already in order (in particular any
+rows with equal time and channel) appears in the output in the same order. -/
+theorem sort_stable_perm_sorted_partial (hasChannel : Bool) (x : List CRow)
+    (hok : sortSpanTooLarge hasChannel x = false) :
     (sortByTime hasChannel x).Perm x ∧
     (sortByTime hasChannel x).Pairwise (fun a b => lexLeB hasChannel a b = true) ∧
     (∀ ys : List CRow, ys.Pairwise (fun a b => lexLeB hasChannel a b = true) → ys.Sublist x →
       ys.Sublist (sortByTime hasChannel x)) := by
-  rw [sortByTime_eq_mergeSort]
+  rw [sortByTime_fast hok]
   exact ⟨List.mergeSort_perm _ _,
     List.pairwise_mergeSort (lexLeB_trans hasChannel) (lexLeB_total hasChannel) x,
     fun ys h1 h2 => List.sublist_mergeSort (lexLeB_trans hasChannel) (lexLeB_total hasChannel) h1 h2⟩
 
-/-- two rows with the same (time, channel) keep their input order (`mergeSort` does not reduce by `decide`, so the
-instance goes through the theorem) -/
+/-- the slow path (`np.sort(x, kind="mergesort", order=("time", "channel"))`) orders by (time, channel, remaining fields) -/
+theorem sort_slow_path_spec (hasChannel : Bool) (x : List CRow) (hbig : sortSpanTooLarge hasChannel x = true) :
+    sortByTime hasChannel x = isort (lexAllLeB hasChannel) x :=
+  sortByTime_slow hbig
+
+/-- negation witness of the full statement: with a time span of 5·10^18 ns and two channels the slow path is taken and
+two rows with the same (time, channel) come out in the order of their other fields, not in input order
+(replayed on the real code: known finding `C17-sort-slow-path-not-stable`). -/
+theorem sort_stable_counterexample :
+    sortSpanTooLarge true [⟨0, 1, 3⟩, ⟨0, 1, 2⟩, ⟨5000000000000000000, 0, 1⟩] = true ∧
+    sortByTime true [⟨0, 1, 3⟩, ⟨0, 1, 2⟩, ⟨5000000000000000000, 0, 1⟩] =
+      [⟨0, 1, 2⟩, ⟨0, 1, 3⟩, ⟨5000000000000000000, 0, 1⟩] ∧
+    ¬ [(⟨0, 1, 3⟩ : CRow), ⟨0, 1, 2⟩].Sublist (sortByTime true [⟨0, 1, 3⟩, ⟨0, 1, 2⟩, ⟨5000000000000000000, 0, 1⟩]) := by
+  decide
+
+/-- two rows with the same (time, channel) keep their input order on the fast path (`mergeSort` does not reduce by
+`decide`, so the instance goes through the statement above) -/
 example : [(⟨5, 1, 0⟩ : CRow), ⟨5, 1, 3⟩].Sublist (sortByTime true [⟨5, 1, 0⟩, ⟨3, 2, 1⟩, ⟨3, -1, 2⟩, ⟨5, 1, 3⟩]) :=
-  (sort_stable_perm_sorted true _).2.2 _ (by decide) (by decide)
+  (sort_stable_perm_sorted_partial true _ (by decide)).2.2 _ (by decide) (by decide)
+
+/-! ### split_touching_windows -/
+
+/-- `split_touching_windows` (pure slicing of the windows of `touching_windows`) returns for every container exactly
+the things that reach to within `window` of it, in order; same precondition as `touching_windows_spec` -/
+theorem split_touching_windows_spec (things containers : List Row) (window : Int)
+    (ht : sortedByTimeB things = true) (he : sortedByEndB things = true) (hc : sortedByTimeB containers = true)
+    (hnt : nonNegB things = true) (hnc : nonNegB containers = true) :
+    splitTouchingWindows things containers window = .ok (splitTouchSpec things containers window) :=
+  splitTouchingWindows_eq_spec window ht he hc hnt hnc
+
+/-! ### translation invariance (why epoch-scale timestamps cannot change an answer of the model) -/
+
+/-- shifting every time of both arrays by the same `d` (and `not_before`, `a1`/`b1` likewise) leaves every answer of
+the model unchanged; the real code is compared with the model at `d = 1_700_000_000_000_000_137` by the check -/
+theorem translation_invariant (d : Int) (things containers : List Row) (window safeBreak notBefore : Int) :
+    fullyContainedIn (shiftRows d things) (shiftRows d containers) = fullyContainedIn things containers ∧
+    touchingWindows (shiftRows d things) (shiftRows d containers) window = touchingWindows things containers window ∧
+    absTimeToPrevNext (shiftRows d things) (shiftRows d containers) = absTimeToPrevNext things containers ∧
+    diffGaps (shiftRows d things) = diffGaps things ∧
+    findBreakI (shiftRows d things) safeBreak (notBefore + d) = findBreakI things safeBreak notBefore :=
+  ⟨fullyContainedIn_shift d things containers, touchingWindows_shift d window things containers,
+    absTimeToPrevNext_shift d things containers, diffGaps_shift d things, findBreakI_shift d safeBreak notBefore things⟩
+
+theorem translation_invariant_overlap (d a1 nA b1 nB : Int) :
+    overlapIndices (a1 + d) nA (b1 + d) nB = overlapIndices a1 nA b1 nB :=
+  overlapIndices_shift d a1 nA b1 nB
+
+theorem translation_invariant_sort (d : Int) (hasChannel : Bool) (x : List CRow) :
+    sortByTime hasChannel (x.map (shiftC d)) = (sortByTime hasChannel x).map (shiftC d) :=
+  sortByTime_shift d hasChannel x
 
 /-! ### inputs violating sortedness are rejected -/
 
